@@ -115,12 +115,31 @@ def _event(run, d):
     return {"ev": "modules", "origin": run["id"], "cands": cands, "entry": entry_rank, "user": uwant, "got": got, "sizeOk": bool(mods.get("size_ok"))}
 
 
+def _so_version(ck):
+    """The version fields of a module record come from the file name (SoVersion::parse): model checked, then every abstract
+    component sequence replayed into the crate.  Conformance only (no property speaks about versions)."""
+    util.mc_design(ck, "MC_SoVersion", "MC_SoVersion", "SoVersion::parse over every sequence of <= 5 components of 7 kinds (number, too large, empty, 2rc5 / 2rc / rc5 / rc shapes): the transcribed loop against what the four fields mean (ParseIsDecl), the loop as a function, termination", workers=4)
+    exp = core.run_tlc("MC_SoVersion", "MC_SoVersion_export", workers=4, timeout=600)
+    cases = exp["printed"].get("REPLAY", [])
+    if not cases:
+        raise core.ToolError("MC_SoVersion exported no cases")
+    inp = os.path.join(ck.work, "sover.in.jsonl")
+    core.export_lines(cases, inp)
+    out = os.path.join(ck.work, "sover.ndjson")
+    core.drive("sover", out, inp=inp)
+    util.judge_batch(ck, "Trace_SoVersion", out, "every abstract component sequence written out as a file name (libmodel.so.<components>) and parsed by the crate through get_mapping_effective_path_name_and_version: the four version fields vs the model's",
+                     "SoVersion", lambda hist, tag: ({"tag": tag}, str(hist[-1])), traces=len(cases))
+
+
 def c08(ck):
     quick = ck.tier == "quick"
     mc = core.mc_or_die("ModuleList", "MC_ModuleList", workers=8, coverage=True, timeout=1500)
     util.vacuity(ck, mc, "ModuleList", ["Write", "Modules", "Listed"])
     ck.add_mc(mc, "module list for every list of <= 2 mappings (named, offset, executable, size, contained in a caller mapping, id in {none, zero, a, b}, SONAME), entry point positions, caller mappings; invariants ExactlyTheListed, EntryFirst, UserLast")
-    util.mc_design(ck, "UserContain", "MC_UserContain", "is_contained_in's loop over <= 2 caller mappings (every pair of ranges over 5 addresses, ends coinciding or not, either order) against 'some mapping of the list contains it'; liveness", workers=4)
+    util.mc_design(ck, "UserContain", "MC_UserContain", "is_contained_in's loop over <= 2 caller mappings (start, size) over machine words 0..4, caller mappings that exceed the address space included, saturating extents, against 'some mapping of the list contains it' read mathematically; no panic; liveness", workers=4)
+    util.apalache_inductive(ck, "UserContainAp", "the same loop with saturating extents for ANY word size (Top an arbitrary positive integer) and any list of <= 3 caller mappings: IndInv inductive and implying C08_SuppressedIffContained",
+                            props=["C08_SuppressedIffContained"])
+    _so_version(ck)
     scns = _scenarios(quick, ck.seed, ck.work) + dumps.cross_scenarios(quick, ck.seed)
     runs = dumps.run_scenarios(ck, scns, "c08")
     evs = [_event(r, d) for r in runs for d in r["dumps"]]
